@@ -1072,6 +1072,140 @@ def attribute_mt(c, obs, f):
     return {"mt-stale-install": "C16-mt-stale-install"}.get(f.get("mechanism"))
 
 
+
+# --------------------------------------------------------------------------- family: pcache (PageCache)
+IMPORTS_PC = "From HS Require Import Base.Prelude C16.Model C16.ModelPC."
+
+
+def gen_pc(rng):
+    cap = rng.randint(1, 3)
+    ra = rng.choice([0, 0, 1, 2])
+    lat = dict(r=rng.choice([3, 4]), w=rng.choice([5, 6, 9]))
+    style = rng.choice(["sequential", "overlap", "overlap"])
+    npages = rng.randint(2, 6)
+    ops, t = [], 0
+    for _ in range(rng.randint(2, 22)):
+        r = rng.random()
+        if r < 0.08:
+            # flush only while nothing else runs (its iteration over the live dict is not modelled under overlap)
+            t += 120
+            ops.append([t, "flush"])
+            t += 120
+            continue
+        t += 60 if style == "sequential" else rng.choice([0, 1, 1, 2, 3, 5, 8, 13])
+        ops.append([t, "read" if r < 0.55 else "write", rng.randrange(npages)])
+    return dict(cap=cap, ra=ra, lat=lat, ops=ops, style=style)
+
+
+def impl_pc(c):
+    from happysimulator.components.infrastructure.page_cache import PageCache
+    from happysimulator.core.entity import Entity
+    from happysimulator.core.event import Event
+    from happysimulator.core.simulation import Simulation
+    from happysimulator.core.temporal import Instant
+    from hsverif.util import run_bounded
+
+    lat = c["lat"]
+    pc = PageCache("pc", capacity_pages=c["cap"], readahead_pages=c["ra"],
+                   disk_read_latency_s=lat["r"] * UNIT, disk_write_latency_s=lat["w"] * UNIT)
+    log = []
+
+    def snap():
+        st = pc.stats
+        return dict(ids=list(pc._pages.keys()), dirty=[1 if p.dirty else 0 for p in pc._pages.values()],
+                    stats=[st.hits, st.misses, st.evictions, st.dirty_writebacks, st.readaheads],
+                    cached=pc.pages_cached)
+
+    class Driver(Entity):
+        def handle_event(self, ev):
+            oid = ev.context["oid"]
+            o = c["ops"][oid]
+            gen = pc.flush() if o[1] == "flush" else (pc.read_page(o[2]) if o[1] == "read" else pc.write_page(o[2]))
+            seg = 0
+            while True:
+                try:
+                    d = next(gen)
+                except StopIteration as e:
+                    log.append(dict(oid=oid, seg=seg, kind="ret", val=e.value, snap=snap()))
+                    return
+                except (KeyError, RuntimeError) as e:
+                    log.append(dict(oid=oid, seg=seg, kind="exc", val=type(e).__name__, snap=snap()))
+                    return
+                log.append(dict(oid=oid, seg=seg, kind="yield", val=round(d / UNIT), snap=snap()))
+                seg += 1
+                yield d
+
+    drv = Driver("driver")
+    sim = Simulation(entities=[pc, drv])
+    for oid, o in enumerate(c["ops"]):
+        sim.schedule(Event(time=Instant.from_seconds(o[0] * UNIT), event_type="op", target=drv, context={"oid": oid}))
+    _, verdict = run_bounded(sim, wall_s=20.0)
+    return dict(log=log, verdict=verdict)
+
+
+def encode_pc(c, obs):
+    tr = []
+    for e in obs["log"]:
+        o = c["ops"][e["oid"]]
+        if e["seg"] == 0:
+            op = Ctor("PFlush") if o[1] == "flush" else Ctor("PRead" if o[1] == "read" else "PWrite", o[2])
+            act = Ctor("PStart", e["oid"], op)
+        else:
+            act = Ctor("PResume", e["oid"])
+        if e["kind"] == "yield":
+            out = Ctor("OYield", e["val"])
+        elif e["kind"] == "ret":
+            out = Ctor("ORet", None if e["val"] is None else SomeV(e["val"]))
+        else:
+            out = Ctor("ONone")
+        s = e["snap"]
+        tr.append((act, out, (_zl(s["ids"]), _zl(s["dirty"]), s["stats"])))
+    lat = c["lat"]
+    return term((Ctor("Build_pcfg", c["cap"], c["ra"], lat["r"], lat["w"]), tr if tr else Raw("[]")))
+
+
+WHAT["pc-overlap"] = ("PageCache operations that overlap: _load_page checks for room before the disk-read latency and inserts "
+                      "after it (capacity exceeded, a dirty page replaced by a clean one), and two evictions of the same "
+                      "dirty page both delete it (KeyError)")
+
+
+def oracle_pc(c, obs):
+    fails = []
+    log, ops = obs["log"], c["ops"]
+    if obs["verdict"] != "ok":
+        return [dict(clause="run terminates", verdict=obs["verdict"])]
+    span = {}
+    for idx, e in enumerate(log):
+        a = span.setdefault(e["oid"], [idx, idx])
+        a[1] = idx
+    def overlapped(x):
+        return any(y != x and span[y][0] < span[x][1] and span[x][0] < span[y][1] for y in span)
+    prev = dict(ids=[], dirty=[], stats=[0, 0, 0, 0, 0])
+    tainted = False
+    for idx, e in enumerate(log):
+        tainted = tainted or overlapped(e["oid"])      # an overlap happened up to here: the state may be corrupted
+        mech = "pc-overlap" if tainted else "pc-sequential"
+        s = e["snap"]
+        if e["kind"] == "exc" and not any(f["clause"].startswith("no exception") for f in fails):
+            fails.append(dict(clause="no exception escapes a page-cache operation", mechanism=mech, step=idx, exc=e["val"],
+                              what=WHAT.get(mech, "")))
+        if (s["cached"] > c["cap"] or len(s["ids"]) > c["cap"]) and not any(f["clause"].startswith("capacity") for f in fails):
+            fails.append(dict(clause="capacity: cache holds at most its capacity", component="PageCache", mechanism=mech,
+                              step=idx, pages=s["ids"], cap=c["cap"], what=WHAT.get(mech, "")))
+        pd = dict(zip(prev["ids"], prev["dirty"]))
+        sd = dict(zip(s["ids"], s["dirty"]))
+        lost = [p for p, d in pd.items() if d and not sd.get(p)]
+        if len(lost) > s["stats"][3] - prev["stats"][3] and not any(f["clause"].startswith("write-back") for f in fails):
+            fails.append(dict(clause="write-back data is never discarded before it reaches the backing store",
+                              component="PageCache", mechanism=mech, step=idx, lost=lost, what=WHAT.get(mech, "")))
+        prev = s
+    return fails
+
+
+def attribute_pc(c, obs, f):
+    return {"pc-overlap": "C16-pagecache-overlap"}.get(f.get("mechanism"))
+
+
 FAMILIES = [
     Family("policy", IMPORTS, "ok_policy", "pkind * list (pop_ * option Z * list (list Z))", gen_policy, impl_policy,
            encode_policy, oracle_policy, lambda c, o: any(x[0] == "evict" for x in c["ops"]),
@@ -1086,9 +1220,13 @@ FAMILIES = [
            encode_mt, oracle_mt, lambda c, o: any(e["snap"]["stats"][3] > 0 or e["snap"]["stats"][6] > 0 for e in o["log"][-1:]),
            attribute_mt, parallel=True,
            describe=lambda c: f"{c['promote']},{'wt' if c['wt1'] else 'wb'},{c['style']}"),
+    Family("pcache", IMPORTS_PC, "ok_pc", "pc_case", gen_pc, impl_pc,
+           encode_pc, oracle_pc, lambda c, o: any(e["snap"]["stats"][2] > 0 for e in o["log"][-1:]),
+           attribute_pc, parallel=True,
+           describe=lambda c: f"cap={c['cap']},ra={c['ra']},{c['style']}"),
 ]
 
-PROOF_FILES = ["C16/Model.v", "C16/Lists.v", "C16/Policies.v", "C16/Store.v", "C16/Races.v", "C16/Seq.v", "C16/ModelTTL.v", "C16/SoftTTL.v", "C16/ModelMT.v", "C16/MT.v", "C16/Props.v"]
+PROOF_FILES = ["C16/Model.v", "C16/Lists.v", "C16/Policies.v", "C16/Store.v", "C16/Races.v", "C16/Seq.v", "C16/ModelTTL.v", "C16/SoftTTL.v", "C16/ModelMT.v", "C16/MT.v", "C16/ModelPC.v", "C16/PC.v", "C16/Props.v"]
 
 TRUSTED = [
     "Coq 8.16.1 kernel (coqc, vm_compute for refutation witnesses and case evaluation); no native_compute",
@@ -1111,12 +1249,12 @@ def _fast_coq_cases(ctx):
 def run(ctx):
     _fast_coq_cases(ctx)
     ctx.prove(PROOF_FILES, allowed_axioms=(), trusted_base=TRUSTED)
-    stats = [
-        run_family(ctx, FAMILIES[0], ctx.n(150, 2500)),
-        run_family(ctx, FAMILIES[1], ctx.n(90, 1200)),
-        run_family(ctx, FAMILIES[2], ctx.n(90, 1200)),
-        run_family(ctx, FAMILIES[3], ctx.n(70, 900)),
-    ]
+    counts = [ctx.n(150, 2500), ctx.n(90, 1200), ctx.n(90, 1200), ctx.n(70, 900), ctx.n(100, 1500)]
+    stats = []
+    for fam, n in zip(FAMILIES, counts):
+        st = run_family(ctx, fam, n)
+        ctx.log(f"family {fam.name}: cases={st['cases']} mismatches={st['mismatches']} oracle_failures={st['oracle_failures']} known={st['known']}")
+        stats.append(st)
     merge_stats(ctx, stats, "random structured op sequences; non-trivial = contains an eviction; distinct by JSON of the input")
     ctx.finish_obligations()
 
